@@ -200,7 +200,7 @@ type c05SeriesCase struct {
 	Expr  string `json:"expr"`
 	MaskA int    `json:"mask_a"`
 	MaskB int    `json:"mask_b"`
-	TB    int64  `json:"tb"`   // truncateBefore / asOf (ns rel. to base; <0 = zero time)
+	TB    int64  `json:"tb"` // truncateBefore / asOf (ns rel. to base; <0 = zero time)
 	Until int64  `json:"until"`
 	Order []int  `json:"order,omitempty"`
 }
